@@ -199,7 +199,7 @@ def make_env(template_dir=None):
     """The environment `Generator(Options.build(""))` constructs, with filters/tests wrapped for proxies."""
     from gapic.generator.generator import Generator
     from gapic.utils import Options
-    g = Generator(Options.build(""))
+    g = Generator(Options.build(f"python-gapic-templates={template_dir}" if template_dir else ""))
     env = g._env
     for name in list(env.filters):
         f = env.filters[name]
